@@ -17,14 +17,6 @@ for sid in $ids; do
   if [ $rc -ne 1 ]; then
     if grep -q '"detection_note"' /verif/seeded/$sid/meta.json; then echo "   (expected miss: outside reach, see detection_note in meta.json)"; else miss=$((miss+1)); fi
   fi
-  python3 - "$sid" "$prop" "$rc" "$out" <<'PY'
-import json,sys
-sid,prop,rc,out=sys.argv[1:5]
-p='/verif/seeded/%s/meta.json'%sid
-m=json.load(open(p))
-m['check_result']={'cmd':'git -C /repo apply patch.diff; /verif/bin/govc check --property %s --tier quick; git -C /repo checkout -- .'%prop,'exit':int(rc),
-  'violations':[l for l in out.splitlines() if l.startswith('VIOLATION')][:6]}
-json.dump(m,open(p,'w'),indent=1)
-PY
+  python3 /verif/seed_record.py "$sid" "$prop" "$rc" "$out" /repo
 done
 echo "not detected: $miss"
